@@ -165,6 +165,7 @@ class ServeModel(object):
             v["ret%d" % t] = z3.BoolVal(False)       # value returned by the last serve()
             v["iters%d" % t] = bv(0, IW)             # background thread: serve() calls made
             v["timeout%d" % t] = z3.BoolVal(False)   # wait() raised the timeout error
+            v["eready%d" % t] = z3.BoolVal(False)    # own result already ready when the receive lock was last taken
         return v
 
     def is_bg(self, t):
@@ -338,6 +339,9 @@ class ServeModel(object):
                     raise Unsupported("engine B: blocking acquire of the receive lock")
                 got = z3.Not(S.v["recvlock"])
                 Wk.set("recvlock", True, got)
+                if t < self.nwait:
+                    # was the thread's own result already there when it took the receive lock?
+                    Wk.set("eready%d" % t, S.v["ready%d" % (t + 1)], got)
                 self.goto(Wk, S, t, node.succ["true"], z3.Not(got))
                 self.goto(Wk, S, t, node.succ["false"], got)
                 return T
